@@ -107,6 +107,10 @@ pub fn apply(regs: &mut Vec<R>, r: usize, op: &Op) {
         (R::V(c), Op::IterMut(a, b)) => { for (_, v) in c.iter_mut() { *v = *v * *a + *b; } }
         (R::M(c), Op::IterMut(a, b)) => { for (_, v) in c.iter_mut() { *v = *v * *a + *b; } }
         (R::E(c), Op::IterMut(a, b)) => { for (_, v) in c.iter_mut() { *v = *v * *a + *b; } }
+        // `Clone::clone_from` (into a target that may hold a cached mass) for odd source registers, plain `clone` otherwise
+        (R::V(c), Op::Clone(q)) if *q % 2 == 1 => { if let Some(R::V(o)) = &other { c.clone_from(o); } }
+        (R::M(c), Op::Clone(q)) if *q % 2 == 1 => { if let Some(R::M(o)) = &other { c.clone_from(o); } }
+        (R::E(c), Op::Clone(q)) if *q % 2 == 1 => { if let Some(R::E(o)) = &other { c.clone_from(o); } }
         (t, Op::Clone(_)) => { *t = other.unwrap(); }
         (R::V(c), Op::IntoMap) | (R::V(c), Op::IntoVec) => { let m: ChemicalCompositionMap = c.clone().into(); *c = m.into(); }
         (R::M(c), Op::IntoMap) | (R::M(c), Op::IntoVec) => { let v: ChemicalCompositionVec = c.clone().into(); *c = v.into(); }
@@ -251,7 +255,11 @@ pub fn run(args: &[String]) {
                     .unwrap_or_else(|| rng.below(6) as usize);
                 let n = 1 + rng.below(9) as i32;
                 bound[r] += n as i64;
-                op = match rng.below(4) { 0 => Op::IdxSet(k, n), 1 => Op::IdxAdd(k, n), 2 => Op::IdxStrSet(POOL[k].0.to_string(), n), _ => Op::Inc(k, n) };
+                let text = if POOL[k].1 == 0 { POOL[k].0.to_string() } else { format!("{}[{}]", POOL[k].0, POOL[k].1) };
+                op = match rng.below(7) { 0 => Op::IdxSet(k, n), 1 => Op::IdxAdd(k, n), 2 => Op::IdxStrSet(text, n), 3 => Op::Inc(k, n),
+                                          4 => Op::IncStr(text, n),
+                                          5 if mode == "c02" => Op::GetStrMutSet(POOL[k].0.to_string(), n),   // map-only API: not a lock-step operation
+                                          5 => Op::IncStr(POOL[k].0.to_string(), n), _ => Op::Clone(1) };
             }
             ops.push((r, op));
         }
